@@ -448,6 +448,13 @@ def init_state(case, M):
         psi = MPS.from_desired_bond_dimension(sites, case['init_chi'], bc=case['bc'], **kw)
     else:
         psi = MPS.from_product_state(sites, case['init'], bc=case['bc'], **kw)
+    for i, d in (case.get('regauge') or []):
+        if psi.chinfo.qnumber == 0 or not (0 <= i < L - 1):
+            continue
+        dv = np.array([d] * psi.chinfo.qnumber)
+        A, B = psi._B[i], psi._B[i + 1]
+        psi._B[i] = A.gauge_total_charge('vR', A.qtotal + dv)
+        psi._B[i + 1] = B.gauge_total_charge('vL', B.qtotal - dv)
     if case.get('init_noncanonical'):
         # an on-site operator that is not unitary, applied without restoring the canonical form: the tensors of psi are not canonical
         # any more (MPOEnvironment.init_first_LP_last_RP has to call psi.canonical_form() before it can build the environments)
@@ -503,6 +510,66 @@ def measure(case, M, psi, eng, E, out, tag=''):
         out[tag + 'last_trunc_err'] = float(st['max_trunc_err'][-1]) if st.get('max_trunc_err') else 0.
         out[tag + 'max_trunc_err'] = float(max(st['max_trunc_err'])) if st.get('max_trunc_err') else 0.
         out[tag + 'E_stats_last'] = float(np.real(st['E'][-1])) if st.get('E') else None
+        out[tag + 'last_E_trunc'] = float(np.real(st['max_E_trunc'][-1])) if st.get('max_E_trunc') else None
+
+
+def effh_probe(M, psi, env, E_ref, thread=False):
+    """The effective Hamiltonians of the engines, read through their other accessors on the returned state: for every position and
+    every (class, combine, move_right)  <theta|H_eff|theta> (H_eff + adjoint for explicit_plus_hc) with theta = psi.get_theta, which is
+    <psi|H|psi> for a normalised canonical finite state; to_matrix() against matvec(); adjoint().to_matrix() against the conjugate
+    transpose of to_matrix().  -> {variant: [max |<theta|H_eff|theta> - E_ref|, max matvec/to_matrix error, max adjoint error,
+    max non-hermiticity of the operator the engine diagonalises, number of positions]}"""
+    import tenpy.linalg.np_conserved as npc
+    from tenpy.algorithms.mps_common import OneSiteH, TwoSiteH, ZeroSiteH
+    from tenpy.linalg.sparse import SumNpcLinearOperator
+    hc = bool(M.H_MPO.explicit_plus_hc)
+    L = psi.L
+    fin = psi.finite
+    out = {}
+
+    def flat(th, acts_on):
+        th = th.copy(deep=True)
+        th.itranspose(acts_on)
+        return th.combine_legs(acts_on, qconj=+1).to_ndarray()
+
+    def one(name, H, theta):
+        Hs = SumNpcLinearOperator(H, H.adjoint()) if (hc and not name.startswith('Thread')) else H
+        w = Hs.matvec(theta)
+        e = npc.inner(theta, w, 'labels', do_conj=True)
+        Mx = H.to_matrix().to_ndarray()
+        v = flat(theta, H.acts_on)
+        mv = flat(H.matvec(theta), H.acts_on)
+        Ad = H.adjoint().to_matrix().to_ndarray()
+        tot = Mx + Ad if (hc and not name.startswith('Thread')) else Mx
+        rec = out.setdefault(name, [0.0, 0.0, 0.0, 0.0, 0])
+        sc = max(1.0, float(np.max(np.abs(Mx)))) if Mx.size else 1.0       # (environments of infinite chains hold extensive energies)
+        rec[0] = max(rec[0], float(abs(e - E_ref))) if E_ref is not None else 0.0
+        rec[1] = max(rec[1], float(np.max(np.abs(Mx @ v - mv))) / sc if v.size else 0.0)
+        rec[2] = max(rec[2], float(np.max(np.abs(Ad - Mx.conj().T))) / sc if Mx.size else 0.0)
+        rec[3] = max(rec[3], float(np.max(np.abs(tot - tot.conj().T))) / sc if Mx.size else 0.0)
+        rec[4] += 1
+    for i0 in range(L):
+        for comb in (False, True):
+            for mr in (True, False):
+                H = OneSiteH(env, i0, comb, mr)
+                one('OneSiteH(combine=%s,move_right=%s)' % (comb, mr), H, H.combine_theta(psi.get_theta(i0, n=1)))
+            if i0 + 1 < L or not fin:
+                H = TwoSiteH(env, i0, comb, True)
+                one('TwoSiteH(combine=%s)' % comb, H, H.combine_theta(psi.get_theta(i0, n=2)))
+        if i0 >= 1 or not fin:
+            H = ZeroSiteH(env, i0)
+            leg = psi.get_B(i0, form=None).get_leg('vL')
+            S = psi.get_SL(i0)
+            th0 = npc.diag(S, leg, labels=['vL', 'vR']) if not isinstance(S, npc.Array) else S
+            one('ZeroSiteH', H, th0)
+    if thread and hc:
+        from tenpy.algorithms.dmrg_parallel import TwoSiteHThreadPlusHC
+        from tenpy.tools.thread import Worker
+        with Worker('probe worker', max_queue_size=1, daemon=False) as worker:
+            for i0 in range(L - 1 if fin else L):
+                H = TwoSiteHThreadPlusHC(env, i0, True, True, plus_hc_worker=worker)
+                one('ThreadTwoSiteH(combine=True)', H, H.combine_theta(psi.get_theta(i0, n=2)))
+    return out
 
 
 def run_ext(case):
@@ -555,10 +622,13 @@ def _run_ext(case, out):
             o_k = {'mixer': True, 'trunc_params': {'chi_max': 64, 'svd_min': 1e-13}, 'max_sweeps': 24, 'min_sweeps': 8, 'max_E_err': 1e-13,
                    'mixer_params': {'amplitude': 1e-2, 'decay': 2.0, 'disable_after': 6}, 'max_trunc_err': 10.0, 'diag_method': 'lanczos',
                    'lanczos_params': {'N_max': 60, 'P_tol': 1e-15, 'E_tol': 1e-15, 'reortho': True}}
-            e_k = dmrg.TwoSiteDMRGEngine(p_k, M, o_k, orthogonal_to=list(lower))
-            E_k, p_k = e_k.run()
+            with warnings.catch_warnings(record=True) as wl:
+                warnings.simplefilter('always')
+                e_k = dmrg.TwoSiteDMRGEngine(p_k, M, o_k, orthogonal_to=list(lower))
+                E_k, p_k = e_k.run()
             lower.append(p_k)
-            out.setdefault('lower', []).append({'E': float(np.real(E_k)), 'psi': dense_state(case, p_k), 'norm_test': float(np.max(p_k.norm_test()))})
+            out.setdefault('lower', []).append({'E': float(np.real(E_k)), 'psi': dense_state(case, p_k), 'norm_test': float(np.max(p_k.norm_test())),
+                                                'warned': any('energy consistent with zero' in str(w_.message) for w_ in wl)})
         kwargs['orthogonal_to'] = [{'ket': p} for p in lower] if ortho.get('as_dict') else list(lower)
     # ---- initialisation data of the environment (documented keyword arguments of MPOEnvironment.init_first_LP_last_RP)
     if case.get('init_env_data') is not None:
@@ -617,9 +687,27 @@ def _run_ext(case, out):
         eng.run_iteration = run_iteration
     n_runs = 1 + int(case.get('rerun', 0))
     E = None
+    canon = []
+    if case['bc'] == 'infinite' and case['engine'] in ('two', 'single'):
+        # DMRGEngine.post_run_cleanup -> _canonicalize may call psi.canonical_form(): <H>/site and the norm error of the state the sweeps
+        # ended with (as in run_one; known finding F13.6)
+        o_canon = psi.canonical_form
+
+        def canonical_form(**kw):
+            rec_ = {'E_before': None, 'norm_err_before': float(np.linalg.norm(psi.norm_test()))}
+            try:
+                rec_['E_before'] = float(np.real(M.H_MPO.expectation_value(psi)))
+            except Exception as e:
+                rec_['E_before_error'] = type(e).__name__ + ': ' + str(e)[:200]
+            canon.append(rec_)
+            return o_canon(**kw)
+        psi.canonical_form = canonical_form
     for k in range(n_runs):
         if k > 0:
             measure(case, M, eng.psi if not case['engine'].startswith('vumps') else psi_ret, eng, E, out, tag='run%d_' % (k - 1))
+            if canon:
+                out['run%d_canon' % (k - 1)] = canon[-1]
+                del canon[:]
             if case.get('reinit_env'):
                 # "useful to (re-)start a Sweep with a slightly different model or different (engine) parameters"
                 M2 = make_model(dict(case, model=case['reinit_env'])) if isinstance(case['reinit_env'], dict) else M
@@ -627,6 +715,16 @@ def _run_ext(case, out):
                 M = M2
         E, psi_ret = eng.run()
     measure(case, M, psi_ret, eng, E, out)
+    if canon:
+        out['canon'] = canon[-1]
+    if not case['engine'].startswith('vumps') and eng.mixer is None and out['S_ndim'] == 1:
+        from tenpy.networks.mpo import MPOEnvironment
+        if case['bc'] == 'finite':
+            out['effh'] = effh_probe(M, psi_ret, MPOEnvironment(psi_ret, M.H_MPO, psi_ret), out['E_mpo'], thread=case['engine'] == 'thread')
+        else:
+            # (a fresh environment started from trivial LP / RP: the consistency of the accessors does not need converged environments,
+            # and post_run_cleanup may have changed the bond dimensions of psi after the last update of eng.env)
+            out['effh'] = effh_probe(M, psi_ret, MPOEnvironment(psi_ret, M.H_MPO, psi_ret, start_env_sites=0), None)
     if stp is not None:
         out['stop'] = {'convs': stp.convs, 'sweeps': stp.sweeps, 'min_sweeps': None if min_sweeps_derived is None else int(min_sweeps_derived),
                        'mixer_end': eng.mixer is not None}
@@ -770,6 +868,9 @@ def run_one(case):
         out['q1'] = [int(x) for x in psi.get_total_charge(True)]
         ov = psi.overlap(psi)
         out['self_overlap'] = [float(np.real(ov)), float(np.imag(ov))]
+        if eng.mixer is None and all(np.ndim(s_) == 1 for s_ in psi._S):
+            from tenpy.networks.mpo import MPOEnvironment
+            out['effh'] = effh_probe(M, psi, MPOEnvironment(psi, M.H_MPO, psi), out['E_mpo'])
     else:
         out['E_bond'] = float(np.mean(np.real(M.bond_energies(psi))))
         out['corr_len_ok'] = True
